@@ -266,6 +266,8 @@ func run(line string) string {
 			return runNilCaps(t)
 		case "cli":
 			return runCLI(t)
+		case "govreq":
+			return runGovReq(t)
 		case "val":
 			c := capsOf(t[2])
 			err := plugin.ValidateRequirements(fake{"p", capsOf(t[1])}, &c)
@@ -844,6 +846,8 @@ func main() {
 			emit("nilcaps " + k + " " + r)
 		}
 	}
+	emit("govreq -")
+	emit("govreq " + hx.Hex("/db"))
 	// the configuration the command line builds with --filter-by-capabilities
 	for _, off := range []string{"0", "1"} {
 		for _, db := range []string{"-", hx.Hex("/db")} {
